@@ -197,6 +197,24 @@ func (e *Engine) bounds(f *Facts, t *Term) bound {
 	if base == nil {
 		return bound{lo: c, hi: c, hasLo: true, hasHi: true}
 	}
+	if base.K == KAff && len(base.A) == 2 && base.A[1] != nil {
+		// pos - neg: interval difference
+		var bp bound
+		if base.A[0] == nil {
+			bp = bound{hasLo: true, hasHi: true}
+		} else {
+			bp = e.bounds(f, base.A[0])
+		}
+		bn := e.bounds(f, base.A[1])
+		var r bound
+		if bp.hasLo && bn.hasHi {
+			r.lo, r.hasLo = bp.lo-bn.hi+c, true
+		}
+		if bp.hasHi && bn.hasLo {
+			r.hi, r.hasHi = bp.hi-bn.lo+c, true
+		}
+		return r
+	}
 	b := f.bnd[base]
 	if base.K == KLen || base.K == KCap {
 		if !b.hasLo || b.lo < 0 {
@@ -404,7 +422,7 @@ func (e *Engine) Assume(f *Facts, c *Term, val bool) bool {
 // tighten sets a lower (isLo) or upper bound on the base symbol of t.
 func (e *Engine) tighten(f *Facts, t *Term, isLo bool, v int64) {
 	base, c := AffParts(t)
-	if base == nil {
+	if base == nil || (base.K == KAff && len(base.A) == 2 && base.A[1] != nil) {
 		return
 	}
 	b := f.bnd[base]
